@@ -39,18 +39,18 @@ HARNESSES += [
 ]
 SPEC = {
     "property": "C03",
-    "level_text": "Bounded symbolic verification of one real SlotState::add_vote step: for 3 validators with arbitrary 16-bit stakes (the solver picks them, including stakes landing exactly on a threshold), for every enumerated pattern of who already holds which vote, and for each certificate type that is not yet present, the solver shows that the certificate is created in this call exactly when the accepted stake including the new vote reaches the type's threshold (60%, 80% for fast-finalization; notar + notar-fallback and skip + skip-fallback combined), at most once, with signers exactly the validators whose matching votes are accepted (the crossing voter included), no validator in both halves, for the right slot and block, and with signer stake that meets the threshold at a receiver. The certificate constructors (try_new: slot/block consistency, per-half signer sets, declared stake = sum) are verified separately on two votes.",
-    "level_note": "Bounds: 3 validators, 2 competing blocks, one slot, one step from a pre-state whose running totals equal the sums over the held votes (the invariant add_vote maintains; C04 shows what is admitted). Holder patterns and which certificates are already present are enumerated as concrete shape discriminants (a symbolic pattern makes one Vec::collect of 112-byte votes cost ~8 M SAT variables); stakes stay symbolic. BLS signing and aggregation are opaque tokens carrying the signer set; in the step harnesses the XCert::new constructors are replaced by stubs that keep their preconditions as assertions. std BTreeMap, SmallVec, SortedVecMap/Set inside slot_state.rs are bounded stand-ins under Kani; native replay uses the real containers, constructors and BLS. Trusts Kani, CBMC, CaDiCaL.",
+    "level_text": "Bounded symbolic verification of one real SlotState::add_vote step for FINAL, SKIP and SKIP-FALLBACK votes (the notar / notar-fallback step and a threshold kernel for it are written but exceed the memory cap - DESIGN.md section 9 - so the notarization, notar-fallback and fast-finalization certificates are covered by their constructors only): for 2 validators with arbitrary 16-bit stakes (the solver picks them, including stakes landing exactly on a threshold), for every enumerated pattern of who already holds which vote, and for each certificate type that is not yet present, the solver shows that the certificate is created in this call exactly when the accepted stake including the new vote reaches the type's threshold (60%, 80% for fast-finalization; notar + notar-fallback and skip + skip-fallback combined), at most once, with signers exactly the validators whose matching votes are accepted (the crossing voter included), no validator in both halves, for the right slot and block, and with signer stake that meets the threshold at a receiver. The admitted vote is on record afterwards, also when its certificate already existed. The certificate constructors of all five types (try_new: slot/block consistency, per-half signer sets, declared stake = sum) are verified separately on two votes.",
+    "level_note": "Bounds: 2 validators, 2 competing blocks, one slot, one step from a pre-state whose running totals equal the sums over the held votes (the invariant add_vote maintains; C04 shows what is admitted). Holder patterns and which certificates are already present are enumerated as concrete shape discriminants (a symbolic pattern makes one Vec::collect of 112-byte votes cost ~8 M SAT variables); stakes stay symbolic. BLS signing and aggregation are opaque tokens carrying the signer set; in the step harnesses the XCert::new constructors are replaced by stubs that keep their preconditions as assertions. std BTreeMap, SmallVec, SortedVecMap/Set inside slot_state.rs are bounded stand-ins under Kani; native replay uses the real containers, constructors and BLS. Trusts Kani, CBMC, CaDiCaL.",
     "overlays": [COLL, FIX, AGG, CERT, SLOTFIX, {"src": "C03/kani_c03.rs", "dest": "src/consensus/pool/slot_state/kani_c03.rs", "decl_in": SS, "decl": "mod kani_c03;"},
                  {"src": "C03/kani_c03_trynew.rs", "dest": "src/consensus/cert/kani_c03_trynew.rs", "decl_in": "src/consensus/cert.rs", "decl": "mod kani_c03_trynew;"}],
     "redirects": SLOT_STATE_REDIRECTS,
     "coll_cap": 3,
     "functions": ["consensus::pool::slot_state::SlotState::{add_vote,count_notar_stake,count_notar_fallback_stake,count_skip_stake,count_finalize_stake,add_cert,is_notar_fallback}", "SlotVotes::{notar_votes,notar_fallback_votes,skip_votes,skip_fallback_votes,final_votes}", "consensus::cert::{NotarCert,NotarFallbackCert,SkipCert,FastFinalCert,FinalCert}::try_new"],
-    "bounds": "3 validators, 16-bit stakes, 2 blocks, one add_vote step; holder patterns enumerated (see gen.py), one creatable certificate type per harness",
+    "bounds": "2 validators, 16-bit stakes, 2 blocks, one add_vote step (final / skip / skip-fallback votes); holder patterns enumerated (see gen.py), one creatable certificate type per harness",
     "explanation": "One-step harnesses on the real SlotState with a reference written from the property statement (threshold reached including the new vote and not yet present <=> created; signer masks from the ghost held sets). Decided by Kani -> CBMC -> CaDiCaL over all stakes within the bound.",
     "assumptions": ["pre-state totals equal the sums over held votes; a certificate whose threshold the held votes reach is present", "new vote admissible (C04)", "BLS sign/aggregate are opaque tokens; signature validity of created certificates is outside (C09 covers the receiver side)", "bounded stand-ins for std/smallvec containers under Kani"],
     "trusted_base": ["kani_slotfix reference (Totals, masks)", "kani_certstub constructor stubs (preconditions kept as assertions)", "verif_coll stand-ins"],
-    "outside": ["more than 3 validators / 2 blocks", "holder patterns not enumerated in gen.py", "PoolImpl::add_vote/add_valid_cert plumbing and the CertCreated event (async, tokio)"],
+    "outside": ["the notar / notar-fallback step (harnesses c03_p_notar_*, c03_p_nfallback_*, c03_nthr_*: over the memory cap)", "more than 2 validators / 2 blocks", "holder patterns not enumerated in gen.py", "PoolImpl::add_vote/add_valid_cert plumbing and the CertCreated event (async, tokio)"],
     "harnesses": HARNESSES + [
         {"name": f"c03_trynew_{k}", "path": "consensus::cert::kani_c03_trynew", "tiers": Q, "role": f"certificate constructor/{k}", "covers": 2,
          "stubs": ["crypto::aggsig::SecretKey::sign", "consensus::cert::aggsig_from_votes"],
